@@ -26,26 +26,15 @@ import re
 import time
 
 from harness.lib import common, cppbuild, cppgen, emb, embgen07, instdrv
-from harness.translate import static_asserts
+from harness.translate import cpp_tables, static_asserts
 
 PROP = "C07"
 
 H = '[$default byte_order: "LittleEndian"]\n'
 
-# key -> (what, pinned input, force flags for the driver)
+# OPEN findings only: key -> (what, pinned input, force flags for the driver).  The pinned inputs of the findings
+# repaired by fix: commits (dca9b37, a37c4e1, d48a2f1) live in corpus/C07/ and are ordinary cases now.
 FINDINGS = [
-    ("virtual-field-names-equal-after-camel-conversion",
-     "two virtual fields whose names are equal after snake_to_camel (`x_1`, `x1`) both get the nested class "
-     "`EmbossReservedVirtualX1View`: accepted, g++ reports a redefinition (F15)",
-     H + "struct Foo:\n  0 [+1] UInt y\n  let x_1 = y + 1\n  let x1 = y + 2\n", ()),
-    ("validator-names-equal-after-camel-conversion",
-     "two fields with [requires] whose names are equal after snake_to_camel (`x_1`, `x1`) both get "
-     "`EmbossReservedValidatorForX1`: accepted, g++ reports a redefinition",
-     H + "struct Foo:\n  0 [+1] UInt x_1\n    [requires: this > 1]\n  1 [+1] UInt x1\n    [requires: this > 2]\n", ()),
-    ("enum-value-names-equal-after-camel-conversion",
-     "two enum values whose names are equal after kCamelCase conversion (`A_1B`, `A1B` -> `kA1b`): accepted, "
-     "duplicate enumerator and duplicate case labels",
-     'enum Foo:\n  [(cpp) $default enum_case: "kCamelCase"]\n  A_1B = 1\n  A1B = 2\n', ()),
     ("field-named-like-view-data-member",
      "a field named `backing_` (or `parameters_initialized_` in a structure with parameters) clashes with the "
      "view class's data member of that name",
@@ -85,23 +74,10 @@ FINDINGS = [
      "`let v = true ? a : b` (constant condition, branches of different C++ integer types): runtime static_assert "
      "\"Choice's IntermediateT should be the same as ResultT\" fails when `v()` is used (found by builder bounds)",
      H + "struct Foo:\n  0 [+1] UInt a\n  1 [+8] UInt b\n  let v = true ? a : b\n", ()),
-    ("equals-on-structure-with-parameters",
-     "`Equals()`/`UncheckedEquals()` of a structure with runtime parameters does not compile "
-     "(`MaybeConstantView` has no `Equals`; `GenericArrayView::Equals` lacks the parameter pack)",
-     H + "struct Foo(n: UInt:8):\n  0 [+1] UInt y\n", ("equals",)),
-    ("text-output-of-array-of-parameterized-structures",
-     "`WriteToString` of a structure holding an array of parameterized structures does not compile "
-     "(`WriteShorthandArrayCommentToTextStream` lacks the parameter pack)",
-     H + "struct Elem(n: UInt:8):\n  0 [+1] UInt y\n\nstruct Foo:\n  0 [+2] Elem(1)[2] xs\n", ("text-out",)),
     ("iterate-array-inside-bits",
      "`begin()`/`end()` of an array field of a `bits` do not compile (`OffsetBitBlock` has no nullptr constructor and, "
      "having const members, no copy assignment)",
      H + "bits Bb:\n  0 [+8] UInt:4[2] xs\n\nstruct Foo:\n  0 [+1] Bb b\n", ("bits-iter",)),
-    ("text-input-of-writable-virtual-enum-field",
-     "`UpdateFromText` of a structure with a writable virtual field of enum type does not compile "
-     "(its `UpdateFromTextStream` calls `ReadIntegerFromTextStream`)",
-     H + "struct Foo:\n  enum Kind:\n    EN0 = 0\n  0 [+1] Kind a\n  let alias_of_a = a\n    [requires: this == Kind.EN0]\n",
-     ("text-in",)),
     ("alias-of-virtual-field-uses-deleted-default-constructor",
      "an alias of a non-constant virtual field (`let v1 = v0`, `let v0 = f0 + 1`) does not compile once `v1()` is "
      "used: `decltype(this->v0())()` needs the deleted default constructor (found by builder scalar)",
@@ -186,6 +162,64 @@ def name_ops(ir_dict, traits=True):
     return ops
 
 
+def distinct_ops(ir_dict):
+    """One `DISTINCT` op per structure of every module of the IR (the back end's check walks the whole IR)."""
+    ops = []
+    for m in ir_dict["module"]:
+        for t, _anc in cppgen.walk_types(m):
+            if "structure" in t:
+                ops.append("DISTINCT " + json.dumps(struct_json(t)))
+    return ops
+
+
+def split_template_args(text, start):
+    """Top-level arguments of the template-argument list opening at text[start] == '<'."""
+    depth, args, cur, k = 0, [], [], start
+    while k < len(text):
+        c = text[k]
+        if c == "<":
+            depth += 1
+            if depth > 1:
+                cur.append(c)
+        elif c == ">":
+            depth -= 1
+            if depth == 0:
+                args.append("".join(cur).strip())
+                return args
+            cur.append(c)
+        elif c == "," and depth == 1:
+            args.append("".join(cur).strip())
+            cur = []
+        else:
+            cur.append(c)
+        k += 1
+    return None
+
+
+def array_units(header):
+    """Set of `kAddressableUnitSize` arguments of every `GenericArrayView<…>` in a header (None = unparsable)."""
+    out = set()
+    for m in re.finditer(r"GenericArrayView<", header):
+        a = split_template_args(header, m.end() - 1)
+        if a is None or len(a) < 4:
+            out.add(None)
+            continue
+        mm = re.match(r"(\d+)\b", a[3])
+        out.add(int(mm.group(1)) if mm else None)
+    return out
+
+
+def expected_array_units(ir_dict):
+    """From the IR: unit 1 for arrays in `bits`, 8 for arrays in `struct` (module 0; doc: bits are bit-addressed)."""
+    out = set()
+    for t, _anc in cppgen.walk_types(ir_dict["module"][0]):
+        if "structure" in t:
+            for f in t["structure"].get("field", []):
+                if "array_type" in f.get("type", {}):
+                    out.add(1 if t.get("addressable_unit") == 1 else 8)
+    return out
+
+
 _LIT_RE = re.compile(r"static_cast</\*\*/\s*::std::(u?)int(\d+)_t>\(\s*(-?)\s*(\d+)(U?)(L{0,2})\s*(- 1)?\s*\)")
 
 
@@ -226,6 +260,7 @@ def prepare(chk, label, files, main, force=(), expect_key=None):
     c.build = cppgen.build_headers(files, main, traits=True, outdir=c.outdir + "/t")
     c.status = c.build["status"]
     c.ops, c.jobs = [], []
+    c.distinct_ops = distinct_ops(c.build["ir_dict"]) if c.build.get("ir_dict") and c.status in ("ok", "back-reject") else []
     if c.status != "ok":
         return c
     c.build_n = cppgen.build_headers(files, main, traits=False, outdir=c.outdir + "/n")
@@ -301,11 +336,43 @@ def evaluate(chk, c, name_answers, lit_answers, results):
         else:
             chk.extra["front_end_crashes_seen"] = chk.extra.get("front_end_crashes_seen", 0) + 1   # C16's business
         return
+    # ---- acceptance clause of the back end: `_verify_generated_names_are_distinct` vs `fieldNamesDistinct`
+    da = getattr(c, "distinct_answers", None)
+    if da is not None and c.status in ("ok", "back-reject"):
+        errs = json.dumps(c.build.get("errors") or [])
+        real_fields_clash = c.status == "back-reject" and ("Virtual fields '" in errs or "Fields with [requires] '" in errs)
+        model_fields_clash = any(a == "false" for a in da)
+        if "bad-op" in da:
+            viol("correspondence", "model driver rejected a DISTINCT op", "", "", found=False)
+        elif c.status == "ok" and model_fields_clash:
+            viol("correspondence", "fieldNamesDistinct: the model rejects (two helper classes of one structure would get "
+                 "the same name), the back end produced a header", "back-reject", c.status, found=False)
+        elif c.status == "back-reject" and "would both be named" in errs and "Enum values '" not in errs and \
+                real_fields_clash != model_fields_clash:
+            viol("correspondence", "fieldNamesDistinct: the back end rejects, the model accepts", "accepted",
+                 c.build.get("errors"), found=False)
+        if c.status == "back-reject" and "would both be named" in errs:
+            chk.nontrivial("rejected-generated-name-collision:" + ("fields" if real_fields_clash else "enum"))
+            chk.extra["rejected_name_collisions"] = chk.extra.get("rejected_name_collisions", 0) + 1
     if c.status != "ok":
         chk.extra.setdefault("rejected", {})
         k = c.build["errors"][0][0][3][:60] if c.build.get("errors") else c.status
+        k = re.sub(r"'[^']*'|\"[^\"]*\"", "…", k)
         chk.extra["rejected"][k] = chk.extra["rejected"].get(k, 0) + 1
         return
+    # ---- `enable_if` tie: kAddressableUnitSize of every GenericArrayView is 8 in a struct / 1 in a bits
+    # (`EnableIfs.arrayUnit`, checked against the model once per run by unit_tie; model-free here)
+    if True:
+        got = set()
+        for h in c.build["headers"].values():
+            got |= array_units(h)
+        want = expected_array_units(c.build["ir_dict"])
+        hdr0 = array_units(c.build["headers"][c.main])
+        chk.count()
+        if None in got or not got <= {1, 8} or hdr0 != want:
+            viol("input", "GenericArrayView<…, kAddressableUnitSize>: the generated unit is not 8 for arrays in a struct / "
+                 "1 for arrays in bits (no SizeOfBuffer() overload is enabled for any other value)", sorted(want),
+                 sorted(str(x) for x in hdr0))
     # ---- literals (tie T for C07_constants_equal_front_end)
     if lit_answers is not None:
         for (kind, text, val), a in zip(c.lit_meta, lit_answers):
@@ -374,13 +441,19 @@ def run_cases(chk, cases, model_ok, tier, workers):
         prepared.append(c)
     chk.extra["emboss_s"] = round(chk.extra.get("emboss_s", 0) + time.time() - t0, 1)
     ops, spans = [], []
+    dops, dspans = [], []
     for c in prepared:
         if c.status == "ok":
             spans.append((len(ops), len(ops) + len(c.name_ops), len(ops) + len(c.name_ops) + len(c.lit_ops)))
             ops += c.name_ops + c.lit_ops
         else:
             spans.append(None)
+        dspans.append((len(dops), len(dops) + len(c.distinct_ops)))
+        dops += c.distinct_ops
     answers = common.Model("model_c07").ask(ops) if (model_ok and ops) else None
+    danswers = common.Model("model_c07").ask(dops) if (model_ok and dops) else None
+    for c, (a, b) in zip(prepared, dspans):
+        c.distinct_answers = danswers[a:b] if danswers is not None else None
     jobs, owner = [], []
     for i, c in enumerate(prepared):
         if c.status != "ok":
@@ -415,7 +488,7 @@ def run_cases(chk, cases, model_ok, tier, workers):
             a, b, e = spans[i]
             na, la = answers[a:b], answers[b:e]
         evaluate(chk, c, na, la, res.get(i, []))
-    chk.extra["traces_validated_against_impl"] = chk.extra.get("traces_validated_against_impl", 0) + len(ops)
+    chk.extra["traces_validated_against_impl"] = chk.extra.get("traces_validated_against_impl", 0) + len(ops) + len(dops)
     return prepared
 
 
@@ -437,7 +510,8 @@ def corpus(tier, r):
         for fn in sorted(os.listdir(cd)):
             if fn.endswith(".emb"):
                 with open(os.path.join(cd, fn)) as f:
-                    out.append(("corpus/" + fn, {"m.emb": f.read()}, "m.emb", (), None, False, True))
+                    # every -std for the 64-bit-limits module, the rotating pair for the others
+                    out.append(("corpus/" + fn, {"m.emb": f.read()}, "m.emb", (), None, False, fn == "limits.emb"))
     return out
 
 
@@ -462,10 +536,237 @@ def prelude_tie(chk, model_ok):
     chk.extra["prelude_requirement_cases"] = n
 
 
+# ISO/IEC 14882:2017 [lex.key]: keywords and alternative tokens (independent of the back end's list)
+CPP17_KEYWORDS = """alignas alignof asm auto bool break case catch char char16_t char32_t class const constexpr
+const_cast continue decltype default delete do double dynamic_cast else enum explicit export extern false float for
+friend goto if inline int long mutable namespace new noexcept nullptr operator private protected public register
+reinterpret_cast return short signed sizeof static static_assert static_cast struct switch template this thread_local
+throw true try typedef typeid typename union unsigned using virtual void volatile wchar_t while and and_eq bitand bitor
+compl not not_eq or or_eq xor xor_eq""".split()
+_IDENT_RE = re.compile(r"[A-Za-z_][A-Za-z0-9_]*\Z")
+
+
+def spec_namespace(text):
+    """doc/cpp-reference / language-reference: the value is a C++ namespace name — identifiers separated by
+    `::`, optionally starting with `::`; blanks around the separators are tolerated.  Returns the component
+    list, or None when the text is not of that shape."""
+    t = text.strip()
+    if t.startswith("::"):
+        t = t[2:]
+    parts = [p.strip() for p in t.split("::")]
+    if not parts or any(not _IDENT_RE.match(p) for p in parts):
+        return None
+    return parts
+
+
+def gen_namespace_text(r):
+    words = ["a", "b_2", "Abc", "_x", "x9", "emboss", "std", "Protected", "new_", "class1", "NULL_", "acme", "wire"]
+    kws = CPP17_KEYWORDS + ["NULL", "restrict", "_Bool", "fortran", "concept", "requires"]
+    ws = ["", "", " ", "  ", "\t", "\xa0", "\x1f", "\u2003"]
+    n = r.choice([1, 1, 2, 3, 4])
+    comps = [r.choice(kws) if r.random() < 0.3 else r.choice(words) for _ in range(n)]
+    k = r.random()
+    if k < 0.12:       # malformed shapes
+        return r.choice(["", " ", "::", " :: ", "a::", "::a::", "a:::b", "a b", "a:b", "1a", "a::1", "a-b", "a.b", "a;:b",
+                         "a: :b", "::::a", "a::\u00e9", "a ::", "é"]), None
+    text = r.choice(ws) + (r.choice(["::", ":: ", ""]) if r.random() < 0.4 else "")
+    for i, c in enumerate(comps):
+        if i:
+            text += r.choice(ws) + "::" + r.choice(ws)
+        text += c
+    text += r.choice(ws)
+    return text, comps
+
+
+def _fake_ns_attr(text):
+    from compiler.util import ir_data, parser_types
+    loc = parser_types.SourceLocation(parser_types.SourcePosition(1, 1), parser_types.SourcePosition(1, 1 + len(text)))
+    return ir_data.Attribute(name=ir_data.Word(text="namespace"), back_end=ir_data.Word(text="cpp"),
+                             value=ir_data.AttributeValue(string_constant=ir_data.String(text=text, source_location=loc)))
+
+
+def namespace_tie(chk, model_ok, r, n):
+    """Function level: `_verify_namespace_attribute` + `_get_namespace_components` on generated texts vs the
+    Lean scanner (`NSV`), and both against the documented rule + the C++17 keyword list."""
+    from compiler.back_end.cpp import header_generator as hg
+    texts = [" ::a1 :: b_2\t::c ", "acme :: protected :: wire", " new", "::class", "a::b", "::", "", "x"]
+    texts += [gen_namespace_text(r)[0] for _ in range(n)]
+    ops = ["NSV " + json.dumps(t) for t in texts]
+    answers = common.Model("model_c07").ask(ops) if model_ok else [None] * len(ops)
+    kinds = {}
+    for t, a in zip(texts, answers):
+        chk.count()
+        errs = []
+        try:
+            hg._verify_namespace_attribute(_fake_ns_attr(t), "m.emb", errs)
+            comps = hg._get_namespace_components(t) if not errs else None
+        except Exception as e:  # noqa: BLE001
+            chk.violation("input", {"input": t, "what": "_verify_namespace_attribute raised an exception", "observed": repr(e)})
+            continue
+        msgs = [e[0].message for e in errs]
+        real = ("ok" if not errs else "reserved" if "Reserved word" in msgs[0] else "empty" if "Empty" in msgs[0] else
+                "global" if "Global" in msgs[0] else "invalid")
+        kinds[real] = kinds.get(real, 0) + 1
+        # spec oracle: an accepted value must be a namespace name without keywords, and the emitted
+        # components must be exactly its identifiers
+        sp = spec_namespace(t)
+        if real == "ok":
+            bad = None
+            if sp is None:
+                bad = "accepted although the value is not `[::]ident(::ident)*`"
+            elif comps != sp:
+                bad = "emitted namespace components differ from the identifiers of the value"
+            elif [c for c in sp if c in CPP17_KEYWORDS]:
+                bad = "a C++ keyword is accepted as a namespace component (`namespace %s {` is ill-formed)" % \
+                    [c for c in sp if c in CPP17_KEYWORDS][0]
+            if bad:
+                chk.violation("input", {"input": '[(cpp) namespace: "%s"]\n%sstruct Foo:\n  0 [+1] UInt y\n' % (t, H),
+                                        "namespace": t, "what": bad, "expected": sp, "observed": {"accepted": True, "components": comps}})
+                continue
+        if a is None:
+            continue
+        j = json.loads(a) if a != "bad-op" else {"verdict": "bad-op"}
+        if j["verdict"] != real or (real == "ok" and j.get("components") != comps) or \
+                (real == "reserved" and sorted(set(j.get("words", []))) != sorted(set(re.findall(r'Reserved word "(\w+)"', " ".join(msgs))))):
+            chk.violation("correspondence", {"theorem_or_correspondence": "_verify_namespace_attribute/_get_namespace_components vs "
+                                             "Emboss.Names.verifyNamespace", "input": t, "model": j,
+                                             "observed": {"verdict": real, "components": comps, "messages": msgs}}, found_input=False)
+        chk.nontrivial("ns:%s:%d:%s" % (real, len(comps or []), bool(re.search(r"\s", t))))
+    chk.extra["namespace_texts"] = kinds
+
+
+def spec_int_range(kind, bits):
+    return (0, (1 << bits) - 1) if kind == "UInt" else (-(1 << (bits - 1)), (1 << (bits - 1)) - 1)
+
+
+def op_tie(chk, model_ok, r, n):
+    """Function level (front end + back end, no g++): `a OP b` over operands at the 64-bit acceptance
+    boundary.  Spec: accepted ⇒ the header names a C++ integer type for the operation (the text `None` never
+    appears); model: `OP` (frontAcceptsOp / opIntermediate) must agree on accept/reject and on the type."""
+    widths = [(k, b) for k in ("UInt", "Int") for b in (8, 16, 31, 32, 33, 56, 63, 64)]
+    cmps = ["==", "!=", "<", "<=", ">", ">="]
+    cases = []
+    for _ in range(n):
+        ka, ba = r.choice(widths)
+        kb, bb = r.choice(widths)
+        if r.random() < 0.5:
+            ka, ba = "UInt", 64
+            kb = "Int"
+        op = r.choice(cmps + cmps + ["+", "-", "*", "?:", "$max"])
+        where = r.choice(["let", "let", "if", "requires"])
+        cases.append((ka, ba, kb, bb, op, where))
+    cases += [("UInt", 64, "Int", 8, "==", "let"), ("UInt", 64, "Int", 8, "<", "if"), ("UInt", 64, "Int", 64, "!=", "requires"),
+              ("UInt", 64, "UInt", 8, "==", "let"), ("UInt", 63, "Int", 64, "<", "let"), ("Int", 64, "Int", 8, ">=", "let")]
+    ops, metas = [], []
+    for ka, ba, kb, bb, op, where in cases:
+        ra, rb = spec_int_range(ka, ba), spec_int_range(kb, bb)
+        fa = "%d [+%d] %s a" % (0, 8, ka) if ba == 64 else None
+        lines = [H.rstrip("\n"), "struct Foo:"]
+        off = 0
+        # operand fields: byte-sized when the width allows, else inside a 64-bit `bits`
+        decl = []
+        for nm, k, b in (("a", ka, ba), ("b", kb, bb)):
+            if b % 8 == 0:
+                decl.append("  %d [+%d] %s %s" % (off, b // 8, k, nm))
+                off += b // 8
+            else:
+                decl.append("  %d [+8] bits:\n    0 [+%d] %s %s" % (off, b, k, nm))
+                off += 8
+        if op in cmps:
+            expr, clauses = "a %s b" % op, [ra, rb]
+        elif op == "?:":
+            expr = "a == 0 ? a : b"
+            clauses = [(min(ra[0], rb[0]), max(ra[1], rb[1])), ra, rb]
+        elif op == "$max":
+            expr = "$max(a, b)"
+            clauses = [(max(ra[0], rb[0]), max(ra[1], rb[1])), ra, rb]
+        else:
+            expr = "a %s b" % op
+            if op == "+":
+                res = (ra[0] + rb[0], ra[1] + rb[1])
+            elif op == "-":
+                res = (ra[0] - rb[1], ra[1] - rb[0])
+            else:
+                prods = [x * y for x in ra for y in rb]
+                res = (min(prods), max(prods))
+            clauses = [res, ra, rb]
+        if op not in cmps:
+            where = "let"
+        if where == "let":
+            body = decl + ["  let v = %s" % expr]
+        elif where == "if":
+            body = decl + ["  if %s:\n    %d [+1] UInt x" % (expr, off)]
+        else:
+            body = ["  [requires: %s]" % expr] + decl
+        text = "\n".join(lines + body) + "\n"
+        ops.append("OP " + " ".join("%d:%d" % c for c in clauses))
+        metas.append((text, clauses, op, where))
+    answers = common.Model("model_c07").ask(ops) if model_ok else [None] * len(ops)
+    dist = {}
+    for (text, clauses, op, where), a in zip(metas, answers):
+        chk.count()
+        b = cppgen.build_headers({"m.emb": text}, "m.emb")
+        st = b["status"]
+        if st in ("front-crash", "back-crash"):
+            if st == "back-crash":
+                chk.violation("input", {"input": text, "what": "accepted by the front end, the C++ back end raised an exception",
+                                        "observed": repr(b.get("exc"))})
+            continue
+        accepted = st == "ok"
+        dist["%s:%s" % ("accepted" if accepted else "rejected", "cmp" if op in ("==", "!=", "<", "<=", ">", ">=") else op)] = \
+            dist.get("%s:%s" % ("accepted" if accepted else "rejected", "cmp" if op in ("==", "!=", "<", "<=", ">", ">=") else op), 0) + 1
+        if accepted:
+            hdr = b["headers"]["m.emb"]
+            if re.search(r"</\*\*/\s*None\b", hdr):
+                chk.violation("input", {"input": text, "files": {"m.emb": text}, "main": "m.emb",
+                                        "what": "accepted module: the header passes the Python value `None` as a C++ type "
+                                                "(no 64-bit integer type holds all operands of `%s`)" % op,
+                                        "expected": "rejected by the front end, or a header naming an integer type",
+                                        "observed": re.findall(r"::emboss::support::\w+</\*\*/\s*None[^(]*", hdr)[:2]})
+                continue
+        if a is None:
+            continue
+        m_acc, m_ty = a.split(" ")
+        # the model speaks about the outermost node only; inner nodes (`a == 0` of ?:) never mix here
+        errs = json.dumps(b.get("errors") or [])
+        real_mixed_reject = (not accepted) and "must fit in a 64-bit" in errs or (not accepted and "cannot fit" in errs) \
+            or (not accepted and "unbounded" in errs)
+        if accepted != (m_acc == "accept") and (accepted or real_mixed_reject):
+            chk.violation("correspondence", {"theorem_or_correspondence": "_integer_bounds_errors_for_expression vs frontAcceptsOp",
+                                             "input": text, "model": a, "observed": {"status": st, "errors": b.get("errors")}},
+                          found_input=False)
+        elif accepted:
+            want = "::std::%s_t" % m_ty
+            fn = {"==": "Equal", "!=": "NotEqual", "<": "LessThan", "<=": "LessThanOrEqual", ">": "GreaterThan",
+                  ">=": "GreaterThanOrEqual", "+": "Sum", "-": "Difference", "*": "Product", "?:": "Choice", "$max": "Maximum"}[op]
+            got = re.findall(r"::emboss::support::%s</\*\*/\s*([\w:]+)" % fn, b["headers"]["m.emb"])
+            if op == "?:":
+                got = got[:]          # Choice only (the inner Equal has its own type)
+            if got and want not in got:
+                chk.violation("correspondence", {"theorem_or_correspondence": "_render_builtin_operation IntermediateT vs opIntermediate",
+                                                 "input": text, "model": a, "observed": got}, found_input=False)
+        chk.nontrivial("op:%s:%s:%s" % (op, where, "acc" if accepted else "rej"))
+    chk.extra["operation_boundary_cases"] = dist
+
+
+def unit_tie(chk, model_ok):
+    """`EnableIfs.arrayUnit` / `sizeOverloads` (op UNIT) against the documented units: a struct is byte-addressed
+    (SizeInBytes), a bits bit-addressed (SizeInBits)."""
+    if not model_ok:
+        return
+    a = common.Model("model_c07").ask(["UNIT 0", "UNIT 1"])
+    chk.count(2)
+    if a != ["8 true false", "1 false true"]:
+        chk.violation("correspondence", {"theorem_or_correspondence": "EnableIfs.arrayUnit/sizeOverloads vs documented units",
+                                         "model": a, "observed": ["8 true false", "1 false true"]}, found_input=False)
+
+
 def search(chk):
     """Model-free: real compiler + g++ on corpus and generated modules."""
     before = len(chk.violations)
     r = common.rng("C07-search")
+    namespace_tie(chk, False, r, 150)
+    op_tie(chk, False, r, 40)
     cases = corpus("quick", r)
     for i in range(8):
         files, main, info = embgen07.gen(r, 0.0)
@@ -497,11 +798,18 @@ def _run(tier):
     items, changed = static_asserts.regenerate()
     chk.extra["static_asserts_extracted"] = len(items)
     chk.extra["static_asserts_table_changed"] = changed
+    words, eifs, changed2 = cpp_tables.regenerate()
+    chk.extra["reserved_words_extracted"] = len(words)
+    chk.extra["enable_ifs_extracted"] = len(eifs)
+    chk.extra["cpp_tables_changed"] = changed2
     model_ok = common.proof_gate(chk, search)
     r = common.rng("C07")
     quick = tier == "quick"
     workers = 6 if quick else 8
     prelude_tie(chk, model_ok)
+    unit_tie(chk, model_ok)
+    namespace_tie(chk, model_ok, r, 150 if quick else 2000)
+    op_tie(chk, model_ok, r, 40 if quick else 400)
     cases = corpus(tier, r)
     for key, what, text, force in FINDINGS:
         # pinned inputs of the open findings: no steering (force every known defect on)
